@@ -31,6 +31,8 @@ def table(ctx, rep):
         rep.fail("R9.1", "found", "Packet::maybe_verify_version not found")
         return
     rep.fn(b.name)
+    from mirq import inline_calls
+    b = inline_calls(b, lambda d: d.startswith("insim::") or d.startswith("<insim::"), depth=3)
     ver = ctx.mir.const_val("insim::VERSION")
     rep.check("R9.1", "VERSION=9", ver == 9, "insim::VERSION must be 9 (found %s)" % ver, b.loc(), sample={"VERSION": ver})
     pk = ctx.mir.enums.get("insim::packet::Packet")
@@ -46,9 +48,8 @@ def table(ctx, rep):
               sample={"rows": [[list(map(list, r[0])), list(r[1])] for r in sorted(rows)]})
     if len(errs) == 1:
         conds = {(c[1], c[2], c[3]) for c in errs[0][0]}
-        want = {("discr(*arg1)", "eq", (ver_idx[0],)), ("(*arg1 as Ver.0.insimver Ne %s)" % ver, "ne", (0,))}
-        alt = {("discr(*arg1)", "eq", (ver_idx[0],)), ("(*arg1 as Ver.0.insimver Eq %s)" % ver, "eq", (0,))}
-        rep.check("R9.1", "reject-conditions", conds in (want, alt),
+        want = {("discr(*arg1)", "eq", (ver_idx[0],)), ("*arg1 as Ver.0.insimver", "ne", (ver,))}
+        rep.check("R9.1", "reject-conditions", conds == want,
                   "rejection must require exactly: variant Ver and insimver != %s; found %s" % (ver, sorted(conds)), b.loc(), sample={"conditions": sorted(map(list, conds))})
         rep.check("R9.1", "reject-value", errs[0][1][2] == ("IncompatibleVersion{*arg1 as Ver.0.insimver}",),
                   "the error must carry the received InSim version; found %s" % (errs[0][1][2],), b.loc())
